@@ -74,4 +74,620 @@ theorem next_move (l : Lexer) :
     simp only [List.length_append, List.length_reverse, List.length_take, List.length_drop]
     refine ⟨by omega, by omega, fun _ => hd.2 h⟩
 
+/-! ## `backup`, `peek` -/
+
+theorem backup_spec (l : Lexer) (h : l.width ≤ l.before.length) :
+    (backup l).before = l.before.drop l.width ∧
+    (backup l).rest = (l.before.take l.width).reverse ++ l.rest ∧
+    (backup l).width = l.width ∧
+    Frame l (backup l) := by
+  unfold backup Lexer.pos
+  rw [if_neg (by omega)]
+  simp only
+  split
+  · split <;> exact ⟨rfl, rfl, rfl, ⟨rfl, rfl, rfl, rfl, rfl, rfl, rfl, rfl, rfl, rfl⟩⟩
+  · exact ⟨rfl, rfl, rfl, ⟨rfl, rfl, rfl, rfl, rfl, rfl, rfl, rfl, rfl, rfl⟩⟩
+
+/-- `next` followed by `backup` puts the cursor back -/
+theorem backup_next (l : Lexer) :
+    (backup (next l).2).before = l.before ∧ (backup (next l).2).rest = l.rest ∧
+    Frame l (backup (next l).2) := by
+  have hm := next_move l
+  have hb := backup_spec (next l).2 (by omega)
+  refine ⟨?_, ?_, (next_frame l).trans hb.2.2.2⟩
+  · rw [hb.1]
+    by_cases h : l.rest = []
+    · rw [next_nil l h]; simp
+    · obtain ⟨_, hb', _, hw⟩ := next_cons l h
+      have hd := decodeRune_width l.rest
+      rw [hb', hw]
+      rw [List.drop_append_of_le_length (by simp; omega)]
+      rw [List.drop_of_length_le (by simp; omega)]
+      simp
+  · rw [hb.2.1]
+    by_cases h : l.rest = []
+    · rw [next_nil l h]; simp [h]
+    · obtain ⟨_, hb', hr, hw⟩ := next_cons l h
+      have hd := decodeRune_width l.rest
+      rw [hb', hw, hr]
+      rw [List.take_append_of_le_length (by simp; omega)]
+      rw [List.take_of_length_le (by simp; omega)]
+      simp
+
+theorem peek_fst (l : Lexer) : (peek l).1 = (next l).1 := rfl
+
+theorem peek_snd (l : Lexer) :
+    (peek l).2.before = l.before ∧ (peek l).2.rest = l.rest ∧ Frame l (peek l).2 := backup_next l
+
+theorem next_fst_congr (a b : Lexer) (h : a.rest = b.rest) : (next a).1 = (next b).1 := by
+  unfold next
+  rw [h]
+  split
+  · rfl
+  · simp only
+    split
+    · rfl
+    · split <;> rfl
+
+/-! ## `acceptRun` -/
+
+/-- the loop stops right after reading a rune that is not white space (or the end marker) -/
+theorem acceptRunLoop_spec : ∀ (f : Nat) (ret : Bool) (l : Lexer), l.rest.length + 1 ≤ f →
+    ∃ l0, (acceptRunLoop f ret l).2 = (next l0).2 ∧ isSpaceRune (next l0).1 = false ∧ Frame l l0 ∧
+      l0.before.length + l0.rest.length = l.before.length + l.rest.length ∧
+      l.before.length ≤ l0.before.length := by
+  intro f
+  induction f with
+  | zero => intro ret l h; omega
+  | succ f ih =>
+    intro ret l h
+    unfold acceptRunLoop
+    simp only
+    split
+    · rename_i hs
+      have hm := next_move l
+      have hne : l.rest ≠ [] := by
+        intro he
+        rw [next_nil l he] at hs
+        simp [isSpaceRune, eofRune] at hs
+      obtain ⟨l0, h1, h2, h3, h4, h5⟩ := ih true (next l).2 (by have := hm.2.2 hne; omega)
+      exact ⟨l0, h1, h2, (next_frame l).trans h3, by omega, by omega⟩
+    · rename_i hs
+      exact ⟨l, rfl, by simpa using hs, Frame.refl l, rfl, Nat.le_refl _⟩
+
+theorem acceptRun_spec (l : Lexer) :
+    Frame l (acceptRun l).2 ∧
+    (acceptRun l).2.before.length + (acceptRun l).2.rest.length = l.before.length + l.rest.length ∧
+    l.before.length ≤ (acceptRun l).2.before.length ∧
+    isSpaceRune (next (acceptRun l).2).1 = false := by
+  obtain ⟨l0, h1, h2, h3, h4, h5⟩ := acceptRunLoop_spec (l.rest.length + 1) false l (Nat.le_refl _)
+  have hb := backup_next l0
+  unfold acceptRun
+  simp only
+  rw [h1]
+  refine ⟨h3.trans hb.2.2, ?_, ?_, ?_⟩
+  · rw [hb.1, hb.2.1]; exact h4
+  · rw [hb.1]; exact h5
+  · rw [next_fst_congr _ l0 hb.2.1]; exact h2
+
+/-! ## the measure -/
+
+/-- bytes not yet consumed (`input[start:]`) -/
+def unread (l : Lexer) : Nat := l.rest.length + (l.before.length - l.start)
+
+def weight : LState → Nat
+  | .done => 0
+  | _ => 1
+
+/-- queued tokens + unconsumed bytes + 1 while the lexer is running: every token handed out lowers it -/
+def rank (l : Lexer) : Nat := l.items.length + unread l + weight l.state
+
+structure Ok (l : Lexer) : Prop where
+  fault : l.fault = .none
+  start_le : l.start ≤ l.before.length
+
+/-- the cursor moved forward over the input, nothing else happened -/
+structure Moves (l l' : Lexer) : Prop where
+  frame : Frame l l'
+  total : l'.before.length + l'.rest.length = l.before.length + l.rest.length
+  fwd : l.before.length ≤ l'.before.length
+
+theorem Moves.refl (l : Lexer) : Moves l l := ⟨Frame.refl l, rfl, Nat.le_refl _⟩
+
+theorem Moves.trans {a b c : Lexer} (h1 : Moves a b) (h2 : Moves b c) : Moves a c :=
+  ⟨h1.frame.trans h2.frame, by have := h1.total; have := h2.total; omega, by have := h1.fwd; have := h2.fwd; omega⟩
+
+theorem Moves.ok {l l' : Lexer} (h : Moves l l') (hok : Ok l) : Ok l' :=
+  ⟨by rw [h.frame.fault]; exact hok.fault, by rw [h.frame.start]; have := hok.start_le; have := h.fwd; omega⟩
+
+theorem Moves.rest_le {l l' : Lexer} (h : Moves l l') : l'.rest.length ≤ l.rest.length := by
+  have := h.total; have := h.fwd; omega
+
+theorem Moves.unread_eq {l l' : Lexer} (h : Moves l l') (hok : Ok l) : Lex.unread l' = Lex.unread l := by
+  unfold Lex.unread; rw [h.frame.start]; have := h.total; have := h.fwd; have := hok.start_le; omega
+
+theorem Moves.rank_eq {l l' : Lexer} (h : Moves l l') (hok : Ok l) : Lex.rank l' = Lex.rank l := by
+  unfold Lex.rank; rw [h.unread_eq hok, h.frame.items, h.frame.state]
+
+theorem next_moves (l : Lexer) : Moves l (next l).2 := by
+  have := next_move l
+  exact ⟨next_frame l, by omega, by omega⟩
+
+theorem peek_moves (l : Lexer) : Moves l (peek l).2 := by
+  have h := peek_snd l
+  exact ⟨h.2.2, by rw [h.1, h.2.1], by rw [h.1]; exact Nat.le_refl _⟩
+
+theorem acceptRun_moves (l : Lexer) : Moves l (acceptRun l).2 := by
+  have h := acceptRun_spec l
+  exact ⟨h.1, h.2.1, h.2.2.1⟩
+
+/-! ## `updateCursor`, `skipTo` -/
+
+theorem cursorStep_frame (l : Lexer) (r : Nat) :
+    Frame l (cursorStep l r) ∧ (cursorStep l r).before = l.before ∧ (cursorStep l r).rest = l.rest := by
+  unfold cursorStep
+  split <;> exact ⟨⟨rfl, rfl, rfl, rfl, rfl, rfl, rfl, rfl, rfl, rfl⟩, rfl, rfl⟩
+
+theorem foldl_cursor_frame (rs : List Nat) : ∀ (l : Lexer),
+    Frame l (rs.foldl cursorStep l) ∧ (rs.foldl cursorStep l).before = l.before ∧
+    (rs.foldl cursorStep l).rest = l.rest := by
+  induction rs with
+  | nil => intro l; exact ⟨Frame.refl l, rfl, rfl⟩
+  | cons r rs ih =>
+    intro l
+    simp only [List.foldl_cons]
+    obtain ⟨h1, h2, h3⟩ := ih (cursorStep l r)
+    obtain ⟨g1, g2, g3⟩ := cursorStep_frame l r
+    exact ⟨g1.trans h1, h2.trans g2, h3.trans g3⟩
+
+theorem updateCursor_spec (n : Nat) (l : Lexer) :
+    Frame l (updateCursor n l) ∧ (updateCursor n l).before = (l.rest.take n).reverse ++ l.before ∧
+    (updateCursor n l).rest = l.rest.drop n := by
+  unfold updateCursor
+  simp only
+  split
+  · have h := foldl_cursor_frame (runes (afterLastNL (l.rest.take n)))
+      { l with before := (l.rest.take n).reverse ++ l.before, rest := l.rest.drop n, width := n,
+               line := l.line + ↑(List.count 10 (l.rest.take n)), col := 0, tcol := 0 }
+    exact ⟨⟨h.1.errout, h.1.errcnt, h.1.file, h.1.start, h.1.inPattern, h.1.items, h.1.scol, h.1.sline,
+            h.1.state, h.1.fault⟩, h.2.1, h.2.2⟩
+  · have h := foldl_cursor_frame (runes (afterLastNL (l.rest.take n)))
+      { l with before := (l.rest.take n).reverse ++ l.before, rest := l.rest.drop n, width := n }
+    exact ⟨⟨h.1.errout, h.1.errcnt, h.1.file, h.1.start, h.1.inPattern, h.1.items, h.1.scol, h.1.sline,
+            h.1.state, h.1.fault⟩, h.2.1, h.2.2⟩
+
+theorem updateCursor_moves (n : Nat) (l : Lexer) : Moves l (updateCursor n l) := by
+  obtain ⟨h1, h2, h3⟩ := updateCursor_spec n l
+  refine ⟨h1, ?_, ?_⟩
+  · rw [h2, h3]; simp; omega
+  · rw [h2]; simp
+
+theorem skipTo_moves (pat : List UInt8) (l : Lexer) : Moves l (skipTo pat l).2 := by
+  unfold skipTo
+  split
+  · exact updateCursor_moves _ l
+  · exact Moves.refl l
+
+/-! ## emitting and reporting -/
+
+theorem emitText_spec (c : Code) (text : List UInt8) (l : Lexer) :
+    (emitText c text l).fault = l.fault ∧ (emitText c text l).before = l.before ∧
+    (emitText c text l).rest = l.rest ∧ (emitText c text l).start = l.before.length ∧
+    (emitText c text l).state = l.state ∧ (emitText c text l).items.length ≤ l.items.length + 1 ∧
+    (emitText c text l).items ≠ [] ∧ (emitText c text l).errout = l.errout ∧
+    (emitText c text l).errcnt = l.errcnt := by
+  unfold emitText consume Lexer.pos
+  simp only
+  split
+  · simp
+  · rename_i h
+    refine ⟨rfl, rfl, rfl, rfl, rfl, by omega, ?_, rfl, rfl⟩
+    intro he; rw [he] at h; simp [maxErrors] at h
+
+theorem emit_spec (c : Code) (l : Lexer) (h : l.start ≤ l.before.length) :
+    (emit c l).fault = l.fault ∧ (emit c l).before = l.before ∧
+    (emit c l).rest = l.rest ∧ (emit c l).start = l.before.length ∧
+    (emit c l).state = l.state ∧ (emit c l).items.length ≤ l.items.length + 1 ∧
+    (emit c l).items ≠ [] ∧ (emit c l).errout = l.errout ∧ (emit c l).errcnt = l.errcnt := by
+  unfold emit Lexer.pos
+  rw [if_neg (by omega)]
+  exact emitText_spec _ _ l
+
+theorem adderror_spec (e : ErrLine) (l : Lexer) :
+    (adderror e l).fault = l.fault ∧ (adderror e l).state = l.state ∧ (adderror e l).items = l.items ∧
+    (((adderror e l).before = l.before ∧ (adderror e l).rest = l.rest ∧ (adderror e l).start = l.start) ∨
+     ((adderror e l).before = [] ∧ (adderror e l).rest = [] ∧ (adderror e l).start = 0)) := by
+  unfold adderror
+  split
+  · exact ⟨rfl, rfl, rfl, Or.inr ⟨rfl, rfl, rfl⟩⟩
+  · split
+    · exact ⟨rfl, rfl, rfl, Or.inl ⟨rfl, rfl, rfl⟩⟩
+    · exact ⟨rfl, rfl, rfl, Or.inl ⟨rfl, rfl, rfl⟩⟩
+
+/-- what reporting an error does to the quantities of the measure -/
+structure Reports (l l' : Lexer) : Prop where
+  ok : Ok l'
+  state : l'.state = l.state
+  items_le : l'.items.length ≤ l.items.length + 1
+  items_ne : l'.items ≠ []
+  unread_le : unread l' ≤ l.rest.length
+  rest_le : l'.rest.length ≤ l.rest.length
+
+theorem errorf_reports (cls : ErrClass) (l : Lexer) (hok : Ok l) : Reports l (errorf cls l) := by
+  unfold errorf
+  simp only
+  obtain ⟨e1, e2, e3, e4, e5, e6, e7, _, _⟩ := emit_spec .error l hok.start_le
+  obtain ⟨a1, a2, a3, a4⟩ := adderror_spec
+    { file := l.file, pos := some (l.line, l.col + 1), cls := cls } (emit .error l)
+  refine ⟨⟨by rw [a1, e1]; exact hok.fault, ?_⟩, by rw [a2, e5], by rw [a3]; exact e6, by rw [a3]; exact e7, ?_, ?_⟩
+  · rcases a4 with ⟨b1, _, b3⟩ | ⟨b1, _, b3⟩
+    · rw [b1, b3, e2, e4]; exact Nat.le_refl _
+    · rw [b1, b3]; simp
+  · unfold unread
+    rcases a4 with ⟨b1, b2, b3⟩ | ⟨b1, b2, b3⟩
+    · rw [b1, b2, b3, e2, e3, e4]; omega
+    · rw [b1, b2, b3]; simp
+  · rcases a4 with ⟨_, b2, _⟩ | ⟨_, b2, _⟩
+    · rw [b2, e3]; exact Nat.le_refl _
+    · rw [b2]; simp
+
+theorem errorfAt_reports (line col : Int) (cls : ErrClass) (l : Lexer) (hok : Ok l) :
+    Reports l (errorfAt line col cls l) := by
+  unfold errorfAt
+  simp only
+  have h := errorf_reports cls { l with line := line, col := col } ⟨hok.fault, hok.start_le⟩
+  exact ⟨⟨h.ok.fault, h.ok.start_le⟩, h.state, h.items_le, h.items_ne, h.unread_le, h.rest_le⟩
+
+/-! ## the state functions -/
+
+/-- a state function has run to its end: something is queued, the lexer is back in the ground
+state or has stopped, and the measure has not grown -/
+structure Done (l l' : Lexer) : Prop where
+  ok : Ok l'
+  st : l'.state = .ground ∨ l'.state = .done
+  items_ne : l'.items ≠ []
+  rank_le : l'.items.length + unread l' + weight l'.state ≤ l.items.length + unread l + 1
+  rest_le : l'.rest.length ≤ l.rest.length
+
+theorem Done.of_le {l l1 l' : Lexer} (h : Done l1 l')
+    (hp : l1.items.length + unread l1 ≤ l.items.length + unread l) (hr : l1.rest.length ≤ l.rest.length) :
+    Done l l' :=
+  ⟨h.ok, h.st, h.items_ne, by have := h.rank_le; omega, by have := h.rest_le; omega⟩
+
+theorem Moves.done {l l1 l' : Lexer} (hm : Moves l l1) (hok : Ok l) (h : Done l1 l') : Done l l' :=
+  h.of_le (by rw [hm.unread_eq hok, hm.frame.items]; exact Nat.le_refl _) hm.rest_le
+
+theorem isUnqDelim_eof : isUnqDelim eofRune = true := by simp [isUnqDelim]
+
+/-- `lexUnquoted`: the token is not empty (`start < pos` or the next rune is no delimiter) -/
+theorem unquotedLoop_done : ∀ (f : Nat) (l : Lexer), Ok l → l.rest.length + 1 ≤ f →
+    (l.start < l.before.length ∨ isUnqDelim (next l).1 = false) → Done l (unquotedLoop f l) := by
+  intro f
+  induction f with
+  | zero => intro l _ h; omega
+  | succ f ih =>
+    intro l hok hf hj
+    unfold unquotedLoop
+    simp only
+    have hp := peek_moves l
+    have hps := peek_snd l
+    split
+    · rename_i hd
+      rw [peek_fst] at hd
+      have hlt : l.start < l.before.length := by
+        rcases hj with h | h
+        · exact h
+        · rw [h] at hd; cases hd
+      have hok1 := hp.ok hok
+      obtain ⟨e1, e2, e3, e4, e5, e6, e7, _, _⟩ := emit_spec .unquoted (peek l).2 hok1.start_le
+      refine ⟨⟨by simp only; rw [e1]; exact hok1.fault, by simp only; rw [e4, e2]; exact Nat.le_refl _⟩,
+        Or.inl rfl, by simp only; exact e7, ?_, by simp only; rw [e3, hps.2.1]; exact Nat.le_refl _⟩
+      simp only [unread, weight]
+      rw [e2, e3, e4, hps.1, hps.2.1]
+      rw [hps.2.2.items] at e6
+      omega
+    · rename_i hd
+      rw [peek_fst] at hd
+      have hne : l.rest ≠ [] := by
+        intro he
+        rw [next_nil l he] at hd
+        exact hd isUnqDelim_eof
+      have hok1 := hp.ok hok
+      have hn := next_moves (peek l).2
+      have hw := (next_move (peek l).2).2.2 (by rw [hps.2.1]; exact hne)
+      have hpos := (next_move (peek l).2).1
+      have hrest := (next_move (peek l).2).2.1
+      have hm := hp.trans hn
+      apply hm.done hok
+      apply ih _ (hm.ok hok)
+      · rw [hps.2.1] at hrest; omega
+      · left
+        rw [hm.frame.start, hpos, hps.1]
+        have := hok.start_le
+        omega
+
+theorem lexUnquoted_done (l : Lexer) (hok : Ok l)
+    (hj : l.start < l.before.length ∨ isUnqDelim (next l).1 = false) : Done l (lexUnquoted l) :=
+  unquotedLoop_done _ l hok (Nat.le_refl _) hj
+
+theorem next_eof_iff (l : Lexer) : (next l).1 = eofRune ↔ l.rest = [] := by
+  constructor
+  · intro h
+    apply Classical.byContradiction
+    intro hne
+    exact next_fst_ne_eof l hne h
+  · intro h; rw [next_nil l h]
+
+/-- `lexQString` -/
+theorem qstringLoop_done (indent line col : Int) : ∀ (f : Nat) (text : List UInt8) (over : Bool) (l : Lexer),
+    Ok l → l.rest.length + 1 ≤ f → Done l (qstringLoop indent line col f text over l) := by
+  intro f
+  induction f with
+  | zero => intro _ _ l _ h; omega
+  | succ f ih =>
+    intro text over l hok hf
+    unfold qstringLoop
+    simp only
+    have hm1 := next_moves l
+    have hok1 := hm1.ok hok
+    have hmv := next_move l
+    by_cases heof : (next l).1 = eofRune
+    · rw [if_pos heof]
+      have hr := errorfAt_reports line col .missingDQuote (next l).2 hok1
+      have hrest : l.rest = [] := (next_eof_iff l).1 heof
+      have h1 := hr.items_le
+      have h2 := hr.unread_le
+      have h3 := hr.rest_le
+      have h4 := hm1.rest_le
+      rw [hm1.frame.items] at h1
+      refine ⟨⟨hr.ok.fault, hr.ok.start_le⟩, Or.inr rfl, hr.items_ne, ?_, by simp only; omega⟩
+      simp only [weight]
+      rw [hrest] at h4
+      simp at h4
+      show (errorfAt line col .missingDQuote (next l).2).items.length +
+        unread (errorfAt line col .missingDQuote (next l).2) + 0 ≤ _
+      unfold unread at h2 ⊢
+      omega
+    · rw [if_neg heof]
+      have hne : l.rest ≠ [] := fun h => heof ((next_eof_iff l).2 h)
+      have hw := hmv.2.2 hne
+      have hfuel1 : (next l).2.rest.length + 1 ≤ f := by have := hmv.2.1; omega
+      have rec1 : ∀ text over, Done l (qstringLoop indent line col f text over (next l).2) :=
+        fun text over => hm1.done hok (ih text over _ hok1 hfuel1)
+      have hm2 := hm1.trans (next_moves (next l).2)
+      have hok2 := hm2.ok hok
+      have hfuel2 : (next (next l).2).2.rest.length + 1 ≤ f := by
+        have := (next_moves (next l).2).rest_le; omega
+      have rec2 : ∀ text over, Done l (qstringLoop indent line col f text over (next (next l).2).2) :=
+        fun text over => hm2.done hok (ih text over _ hok2 hfuel2)
+      have rec3 : ∀ text over el ec, Done l (qstringLoop indent line col f text over
+          (errorfAt el ec .invalidEscape (next (next l).2).2)) := by
+        intro text over el ec
+        have hr := errorfAt_reports el ec .invalidEscape (next (next l).2).2 hok2
+        have hd := ih text over _ hr.ok (by have := hr.rest_le; omega)
+        apply hd.of_le
+        · have h1 := hr.items_le
+          have h2 := hr.unread_le
+          rw [hm2.frame.items] at h1
+          have hu := hm2.unread_eq hok
+          have hpos2 := hm2.fwd
+          have hp1 := hmv.1
+          have hp2 := (next_moves (next l).2).fwd
+          have hs := hok.start_le
+          have hst := hm2.frame.start
+          unfold unread at hu h2 ⊢
+          omega
+        · have := hr.rest_le; have := hm2.rest_le; omega
+      split
+      · -- closing quote
+        obtain ⟨e1, e2, e3, e4, e5, e6, e7, _, _⟩ := emitText_spec .string text (next l).2
+        refine ⟨⟨by simp only; rw [e1]; exact hok1.fault, by simp only; rw [e4, e2]; exact Nat.le_refl _⟩,
+          Or.inl rfl, by simp only; exact e7, ?_, by simp only; rw [e3]; exact hm1.rest_le⟩
+        simp only [unread, weight]
+        rw [e2, e3, e4]
+        rw [hm1.frame.items] at e6
+        have hu := hm1.unread_eq hok
+        have hp1 := hmv.1
+        have hs := hok.start_le
+        have hst := hm1.frame.start
+        unfold unread at hu
+        omega
+      · split
+        · exact rec1 _ _
+        · split
+          · split
+            · exact rec1 _ _
+            · exact rec1 _ _
+          · split
+            · split
+              · exact rec2 _ _
+              · split
+                · exact rec2 _ _
+                · split
+                  · exact rec2 _ _
+                  · split
+                    · exact rec3 _ _ _ _
+                    · exact rec2 _ _
+            · exact rec1 _ _
+
+theorem lexQString_done (l : Lexer) (hok : Ok l) : Done l (lexQString l) :=
+  qstringLoop_done _ _ _ _ _ _ l hok (by omega)
+
+/-- nothing was queued, the measure has not grown -/
+structure Step (l l' : Lexer) : Prop where
+  ok : Ok l'
+  items : l'.items = l.items
+  unread_le : unread l' ≤ unread l
+  rest_le : l'.rest.length ≤ l.rest.length
+
+theorem Moves.step {l l' : Lexer} (hm : Moves l l') (hok : Ok l) : Step l l' :=
+  ⟨hm.ok hok, hm.frame.items, by rw [hm.unread_eq hok]; exact Nat.le_refl _, hm.rest_le⟩
+
+theorem Step.trans {a b c : Lexer} (h1 : Step a b) (h2 : Step b c) : Step a c :=
+  ⟨h2.ok, h2.items.trans h1.items, Nat.le_trans h2.unread_le h1.unread_le, Nat.le_trans h2.rest_le h1.rest_le⟩
+
+theorem Step.done {l l1 l' : Lexer} (hs : Step l l1) (h : Done l1 l') : Done l l' :=
+  h.of_le (by rw [hs.items]; have := hs.unread_le; omega) hs.rest_le
+
+theorem consume_step (l : Lexer) (hok : Ok l) :
+    Step l (consume l) ∧ (consume l).start = l.before.length ∧ (consume l).before = l.before ∧
+    (consume l).rest = l.rest := by
+  unfold consume Lexer.pos
+  refine ⟨⟨⟨hok.fault, Nat.le_refl _⟩, rfl, ?_, Nat.le_refl _⟩, rfl, rfl, rfl⟩
+  simp only [unread]; omega
+
+theorem emit_done (c : Code) (l : Lexer) (hok : Ok l) (hlt : l.start < l.before.length) :
+    Done l (setState .ground (emit c l)) := by
+  obtain ⟨e1, e2, e3, e4, e5, e6, e7, _, _⟩ := emit_spec c l hok.start_le
+  refine ⟨⟨by simp only; rw [e1]; exact hok.fault, by simp only; rw [e4, e2]; exact Nat.le_refl _⟩,
+    Or.inl rfl, by simp only; exact e7, ?_, by simp only; rw [e3]; exact Nat.le_refl _⟩
+  simp only [unread, weight]
+  rw [e2, e3, e4]
+  omega
+
+/-- reporting an error and stopping -/
+theorem reports_done {l l1 l' : Lexer} (hs : Step l l1) (hr : Reports l1 l')
+    (hlt : l1.rest.length + 1 ≤ unread l) : Done l (setState .done l') := by
+  refine ⟨⟨hr.ok.fault, hr.ok.start_le⟩, Or.inr rfl, hr.items_ne, ?_, ?_⟩
+  · have h1 := hr.items_le
+    have h2 := hr.unread_le
+    rw [hs.items] at h1
+    show l'.items.length + unread l' + 0 ≤ _
+    omega
+  · have := hr.rest_le; have := hs.rest_le; show l'.rest.length ≤ _; omega
+
+/-- what one run of `lexGround` achieves -/
+def GroundPost (l l' : Lexer) : Prop :=
+  Done l l' ∨ (Step l l' ∧ (l'.state = .done ∨ l'.state = .qstring ∨
+     (l'.state = .unquoted ∧ (l'.start < l'.before.length ∨ isUnqDelim (next l').1 = false)) ∨
+     (l'.state = .ground ∧ l'.rest.length + 1 ≤ l.rest.length)))
+
+theorem Step.with_state {l l' : Lexer} (h : Step l l') (s : LState) : Step l (setState s l') :=
+  ⟨⟨h.ok.fault, h.ok.start_le⟩, h.items, h.unread_le, h.rest_le⟩
+
+theorem groundStart_spec (l : Lexer) (hok : Ok l) :
+    Step l (groundStart l) ∧ (groundStart l).start = (groundStart l).before.length ∧
+    (groundStart l).state = l.state ∧ isSpaceRune (next (groundStart l)).1 = false := by
+  unfold groundStart
+  simp only
+  have ha := acceptRun_spec l
+  have hma := acceptRun_moves l
+  have hc := consume_step (acceptRun l).2 (hma.ok hok)
+  have hs := (hma.step hok).trans hc.1
+  refine ⟨⟨⟨hs.ok.fault, hs.ok.start_le⟩, hs.items, hs.unread_le, hs.rest_le⟩, ?_, ?_, ?_⟩
+  · show (consume (acceptRun l).2).start = (consume (acceptRun l).2).before.length
+    rw [hc.2.1, hc.2.2.1]
+  · show (consume (acceptRun l).2).state = l.state
+    unfold consume; exact hma.frame.state
+  · rw [next_fst_congr _ (acceptRun l).2 (by show (consume (acceptRun l).2).rest = _; exact hc.2.2.2)]
+    exact ha.2.2.2
+
+/-- after `next` on a non-empty rest the token under construction is not empty -/
+theorem next_start_lt (l : Lexer) (hok : Ok l) (hne : l.rest ≠ []) :
+    (next l).2.start < (next l).2.before.length ∧ (next l).2.rest.length + 1 ≤ l.rest.length := by
+  have hm := next_move l
+  have := hm.2.2 hne
+  rw [(next_frame l).start]
+  have := hok.start_le
+  omega
+
+theorem groundSQuote_done (l : Lexer) (hok : Ok l) (hne : l.rest ≠ []) : Done l (groundSQuote l) := by
+  unfold groundSQuote
+  simp only
+  have hm1 := next_moves l
+  have hok1 := hm1.ok hok
+  have hlt := next_start_lt l hok hne
+  have hc := consume_step (next l).2 hok1
+  have hs2 := (hm1.step hok).trans hc.1
+  have hm3 := skipTo_moves [39] (consume (next l).2)
+  have hs3 := hs2.trans (hm3.step hc.1.ok)
+  have hur : (skipTo [39] (consume (next l).2)).2.rest.length + 1 ≤ unread l := by
+    have := hm3.rest_le
+    rw [hc.2.2.2] at this
+    unfold unread; omega
+  split
+  · -- closing quote found
+    have hok3 := hs3.ok
+    obtain ⟨e1, e2, e3, e4, e5, e6, e7, _, _⟩ := emit_spec .string (skipTo [39] (consume (next l).2)).2 hok3.start_le
+    have hm5 := next_moves (emit .string (skipTo [39] (consume (next l).2)).2)
+    have hok4 : Ok (emit .string (skipTo [39] (consume (next l).2)).2) :=
+      ⟨by rw [e1]; exact hok3.fault, by rw [e4, e2]; exact Nat.le_refl _⟩
+    have hok5 := hm5.ok hok4
+    refine ⟨⟨hok5.fault, hok5.start_le⟩, Or.inl rfl, ?_, ?_, ?_⟩
+    · show (next (emit .string (skipTo [39] (consume (next l).2)).2)).2.items ≠ []
+      rw [hm5.frame.items]; exact e7
+    · show (next (emit .string (skipTo [39] (consume (next l).2)).2)).2.items.length +
+        unread (next (emit .string (skipTo [39] (consume (next l).2)).2)).2 + 1 ≤ _
+      rw [hm5.frame.items, hm5.unread_eq hok4]
+      rw [hs3.items] at e6
+      have : unread (emit .string (skipTo [39] (consume (next l).2)).2) =
+          (skipTo [39] (consume (next l).2)).2.rest.length := by
+        unfold unread; rw [e2, e3, e4]; omega
+      omega
+    · show (next (emit .string (skipTo [39] (consume (next l).2)).2)).2.rest.length ≤ _
+      have := hm5.rest_le
+      rw [e3] at this
+      have := hs3.rest_le
+      omega
+  · exact reports_done hs3 (errorfAt_reports _ _ _ _ hs3.ok) hur
+
+theorem groundPlus_post (l : Lexer) (hok : Ok l) (hne : l.rest ≠ []) : GroundPost l (groundPlus l) := by
+  unfold groundPlus
+  simp only
+  have hm1 := next_moves l
+  have hok1 := hm1.ok hok
+  have hlt := next_start_lt l hok hne
+  have hm2 := hm1.trans (peek_moves (next l).2)
+  have hok2 := hm2.ok hok
+  have hps := peek_snd (next l).2
+  have hlt2 : (peek (next l).2).2.start < (peek (next l).2).2.before.length := by
+    rw [hps.2.2.start, hps.1]; exact hlt.1
+  split
+  · exact Or.inl (hm2.done hok (emit_done .unquoted _ hok2 hlt2))
+  · refine Or.inr ⟨(hm2.step hok).with_state _, Or.inr (Or.inr (Or.inl ⟨rfl, Or.inl ?_⟩))⟩
+    exact hlt2
+
+theorem groundSlash_post (l : Lexer) (hok : Ok l) (hne : l.rest ≠ []) : GroundPost l (groundSlash l) := by
+  unfold groundSlash
+  simp only
+  have hm1 := next_moves l
+  have hok1 := hm1.ok hok
+  have hlt := next_start_lt l hok hne
+  have hm2 := hm1.trans (peek_moves (next l).2)
+  have hok2 := hm2.ok hok
+  have hps := peek_snd (next l).2
+  have hlt2 : (peek (next l).2).2.start < (peek (next l).2).2.before.length := by
+    rw [hps.2.2.start, hps.1]; exact hlt.1
+  have hrest2 : (peek (next l).2).2.rest.length + 1 ≤ l.rest.length := by rw [hps.2.1]; exact hlt.2
+  have hun : ∀ l' : Lexer, l'.rest.length ≤ (peek (next l).2).2.rest.length → l'.rest.length + 1 ≤ unread l := by
+    intro l' h; unfold unread; omega
+  split
+  · -- `//`
+    have hm3 := hm2.trans (skipTo_moves [10] (peek (next l).2).2)
+    split
+    · refine Or.inr ⟨(hm3.step hok).with_state _, Or.inr (Or.inr (Or.inr ⟨rfl, ?_⟩))⟩
+      have := (skipTo_moves [10] (peek (next l).2).2).rest_le
+      show (skipTo [10] (peek (next l).2).2).2.rest.length + 1 ≤ _
+      omega
+    · exact Or.inl (reports_done (hm3.step hok) (errorfAt_reports _ _ _ _ (hm3.ok hok))
+        (hun _ (skipTo_moves [10] (peek (next l).2).2).rest_le))
+  · split
+    · -- `/*`
+      have hm3 := hm2.trans (next_moves (peek (next l).2).2)
+      have hm4 := hm3.trans (skipTo_moves [42, 47] (next (peek (next l).2).2).2)
+      have hr4 : (skipTo [42, 47] (next (peek (next l).2).2).2).2.rest.length ≤ (peek (next l).2).2.rest.length := by
+        have := (skipTo_moves [42, 47] (next (peek (next l).2).2).2).rest_le
+        have := (next_moves (peek (next l).2).2).rest_le
+        omega
+      split
+      · have hm5 := hm4.trans (next_moves _)
+        have hm6 := hm5.trans (next_moves _)
+        refine Or.inr ⟨(hm6.step hok).with_state _, Or.inr (Or.inr (Or.inr ⟨rfl, ?_⟩))⟩
+        have h5 := (next_moves (skipTo [42, 47] (next (peek (next l).2).2).2).2).rest_le
+        have h6 := (next_moves (next (skipTo [42, 47] (next (peek (next l).2).2).2).2).2).rest_le
+        show (next (next (skipTo [42, 47] (next (peek (next l).2).2).2).2).2).2.rest.length + 1 ≤ _
+        omega
+      · exact Or.inl (reports_done (hm4.step hok) (errorfAt_reports _ _ _ _ (hm4.ok hok)) (hun _ hr4))
+    · exact Or.inr ⟨(hm2.step hok).with_state _, Or.inr (Or.inr (Or.inl ⟨rfl, Or.inl hlt2⟩))⟩
+
 end Goyang.Lemmas.Lex
